@@ -349,6 +349,45 @@ def run(ctx):
                 ok = re.match(r"^\[sub_parser\((\w+)\) for \1 in _split_on\(text, ','\)\]\[0\]$", t) is not None
                 ctx.check(ok, 'C05.6', 'list:single-item-is-itself', f_pml.loc(), 'a single item (also inside redundant brackets) is the item itself', 'a single item is parsed as %s' % t[:200])
     ctx.floor('C05.6', n_pml, 3, 'returning paths of _parse_matcher_list')
+    # argument lists: what stands before ! are the items every one of which must be satisfied, what stands after it the excluded items;
+    # an EMPTY side is no items at all (`( ! 7)` only excludes, `(7 ! )` only requires) - unlike the generic list, where an empty
+    # alternative is the match-anything word.  Both halves of the rule: the parser asks the splitter for "empty text = no items" on
+    # every side, and the splitter gives () for blank text exactly when asked.
+    f_pal = repo.func('matcher._parse_args_list')
+    f_spl = repo.func('matcher._split_on')
+    n_pal = 0
+    SIDE = r"\[_parse_arg_matcher\((\w+)\) for \%d in _split_on\(%s, ',', True\)\]"
+    for p in paths_of(repo, f_pal, unroll=1):
+        if p.outcome[0] != 'return':
+            continue
+        t = _dn(p.outcome[1])
+        if not t.startswith('ArgsMatcherList('):
+            continue
+        n_pal += 1
+        bang = [v for a, v in p.decisions if a.text == "_split_pair(text, '!') is None"] + [not v for a, v in p.decisions if a.text == "_split_pair(text, '!')"]
+        if bang and not bang[0]:
+            ok = re.match(r"^ArgsMatcherList\(%s, %s\)$" % (SIDE % (1, r"_split_pair\(text, '!'\)\[0\]"), SIDE % (2, r"_split_pair\(text, '!'\)\[1\]")), t) is not None
+            ctx.check(ok, 'C05.6', 'args-list:required-before-bang-excluded-after', f_pal.loc(),
+                      'in an argument list what stands before ! are the required items, what stands after it the excluded ones; an empty side is no items',
+                      'an argument list with ! is parsed as %s' % t[:260])
+        elif bang:
+            ok = re.match(r"^ArgsMatcherList\(%s, (\[\]|\(\)|\[_parse_arg_matcher\((\w+)\) for \3 in \(\)\])\)$" % (SIDE % (1, 'text')), t) is not None
+            ctx.check(ok, 'C05.6', 'args-list:commas-are-required-items', f_pal.loc(), 'an argument list without ! is a list of required items with no exclusions; blank text is no items',
+                      'an argument list is parsed as %s' % t[:260])
+    ctx.floor('C05.6', n_pal, 3, 'list-building paths of _parse_args_list')
+    from . import common as _cm
+    sp_par = _cm.cparams(f_spl)
+    n_spl = 0
+    for p in paths_of(repo, f_spl, unroll=0):
+        d = {a.text: v for a, v in p.decisions}
+        blank = d.get("'' == %s.strip()" % sp_par[0])
+        if blank is None:
+            blank = d.get("not %s.strip()" % sp_par[0])
+        if blank is True and d.get(sp_par[2]) is True:
+            n_spl += 1
+            ctx.check(p.outcome[0] == 'return' and _dn(p.outcome[1]) in ('()', '[]', 'tuple()', 'tuple([])'), 'C05.6', 'split:blank-text-is-no-items-when-asked', f_spl.loc(),
+                      'blank text gives no items when the caller asked for that', 'blank text with allow_empty_list gives %s' % (_dn(p.outcome[1])[:60] if p.outcome[0] == 'return' else p.outcome[0]))
+    ctx.floor('C05.6', n_spl, 1, 'path of _split_on for blank text with allow_empty_list')
     # number words: every word Python reads as an integer (sign included) is an integer value, every word it reads as a float a float value,
     # everything else is refused with RuntimeError (so that the next kind of value is tried) - decided by folding the parser's paths on sample
     # words, with the conversion builtin's own verdict on the sample taken from Python (a total builtin applied to a constant)
